@@ -81,7 +81,7 @@ FIELD_TYPES = ("E", "H")
 WALLS = (-1, 1)
 ALL_SYM = [s for s in itertools.product((-1, 0, 1), repeat=3) if any(s)]
 COMPONENT_NAMES = ("Ex", "Ey", "Ez", "Hx", "Hy", "Hz")
-REDUCE_SHAPES = {"quick": [(1, 1, 1), (2, 1, 3), (1, 2, 2)], "thorough": [(1, 1, 1), (2, 1, 3), (1, 2, 2), (3, 2, 1), (2, 2, 2), (1, 3, 1)]}
+REDUCE_SHAPES = {"quick": [(2, 1, 3), (1, 2, 2)], "thorough": [(1, 1, 1), (2, 1, 3), (1, 2, 2), (3, 2, 1), (2, 2, 2), (1, 3, 1)]}
 
 
 # ---------------------------------------------------------------------------------------
